@@ -435,3 +435,76 @@ Proof. repeat split; reflexivity. Qed.
 (* T1 constants that the flat side relies on *)
 Lemma glue_types_are_addresses : glue_types = [rt_a; rt_aaaa]. Proof. reflexivity. Qed.
 Lemma wildcard_is_asterisk : wild_label = 256 + 42. Proof. reflexivity. Qed.
+
+(* ------------------------------------------------------------------ referrals and glue *)
+(* The glue of a delegation, as a set: the address records (A / AAAA) found in
+   the zone's ordinary tables at the names its NS records point to -- wherever
+   those names are, also below this or another delegation. *)
+Definition is_glue_of (N : list (name * list rrset)) (ns : rrset) (g : grec) : Prop :=
+  exists d t rs r x, In d (rs_data ns) /\ rd_tgt d = Some t /\ alookup t N = Some rs /\ In r rs /\
+    is_glue (rs_type r) = true /\ In x (rs_data r) /\ g = mkG t (rs_type r) (rs_ttl r) x.
+
+Lemma glue_for_spec N ns g : In g (glue_for N ns) <-> is_glue_of N ns g.
+Proof.
+  unfold glue_for, is_glue_of, collect_glue. rewrite in_flat_map. split.
+  - intros (d & Hd & Hg). destruct (rd_tgt d) as [t|] eqn:Et; [|contradiction].
+    destruct (alookup t N) as [rs|] eqn:Ea; [|contradiction].
+    apply in_flat_map in Hg. destruct Hg as (r & Hr & Hg).
+    destruct (is_glue (rs_type r)) eqn:Eg; [|contradiction].
+    apply in_map_iff in Hg. destruct Hg as (x & Hx & Hin).
+    exists d, t, rs, r, x. repeat split; auto.
+  - intros (d & t & rs & r & x & Hd & Et & Ea & Hr & Eg & Hx & Hg).
+    exists d. split; [exact Hd|]. rewrite Et, Ea. apply in_flat_map. exists r. split; [exact Hr|].
+    rewrite Eg. apply in_map_iff. exists x. split; auto.
+Qed.
+
+Lemma find_map_some {A B} (f : A -> option B) l b : find_map f l = Some b -> exists x, In x l /\ f x = Some b.
+Proof.
+  induction l as [|a l IH]; simpl; [discriminate|]. destruct (f a) eqn:E.
+  - intro H. inversion H; subst. exists a. auto.
+  - intro H. destruct (IH H) as (x & Hx & Hf). exists x. auto.
+Qed.
+
+(* At and below a delegation point the built zone answers with a referral (not
+   authoritative, no SOA): NS and DS of the delegation in the authority
+   section, and exactly the glue of the delegation in the additional section --
+   whatever the order in which delegations and addresses were inserted.  Only a
+   DS query exactly at the delegation point is answered from the parent side. *)
+Theorem referral_carries_glue zf q qt p c : wf_zone zf = true ->
+  find_cut (flat_view zf) q = Some (p, c) -> (name_eqb p q && (qt =? rt_ds)) = false ->
+  exists ns ds, alookup p (zf_cuts zf) = Some (Some ns, ds) /\
+    let a := query (fst (zf_build zf)) q qt in
+    a_rcode a = rc_noerror /\ a_aa a = false /\ a_content a = ANoData /\
+    a_auth a = Some (mkAuth p None (Some ns) ds) /\
+    forall g, In g (a_addl a) <-> is_glue_of (zf_normal zf) ns g.
+Proof.
+  intros Hwf Hc Hq. rewrite build_answers_spec by exact Hwf.
+  unfold find_cut in Hc. pose proof (find_map_some _ _ _ Hc) as (p' & _ & Hp').
+  unfold cut_of, flat_view, flat_view_g in Hp'. destruct (exists_name zf p'); [|discriminate].
+  unfold info_at_g in Hp'. cbn [i_special] in Hp'.
+  destruct (cut_at_g (zf_normal zf) zf p') as [c'|] eqn:Ecut.
+  2:{ destruct (alookup p' (zf_cnames zf)); discriminate. }
+  inversion Hp'; subst p' c'. clear Hp'.
+  unfold cut_at_g in Ecut. destruct (alookup p (zf_cuts zf)) as [[[ns|] ds]|] eqn:Ea; try discriminate.
+  inversion Ecut; subst c. clear Ecut.
+  exists ns, ds. split; [reflexivity|].
+  unfold spec, vspec. unfold find_cut. rewrite Hc.
+  assert (E : (if name_eqb p q then spec_at_cut (mkCut p ns ds (glue_for (zf_normal zf) ns)) qt
+               else spec_referral (mkCut p ns ds (glue_for (zf_normal zf) ns)))
+              = spec_referral (mkCut p ns ds (glue_for (zf_normal zf) ns))).
+  { destruct (name_eqb p q); [|reflexivity]. simpl in Hq. unfold spec_at_cut. rewrite Hq. reflexivity. }
+  rewrite E. cbn. repeat split; try reflexivity.
+  - intro H. apply glue_for_spec. exact H.
+  - intro H. apply glue_for_spec. exact H.
+Qed.
+
+(* two delegations sharing a name server below one of them *)
+Example shared_ns_example :
+  let zf := mkZf [ ([], [mkRrset rt_soa 60 [mkRd 1 None]]); ([371; 366], [mkRrset rt_a 77 [mkRd 7 None]; mkRrset rt_aaaa 78 [mkRd 8 None]]) ]
+                 [ ([371], (Some (mkRrset rt_ns 300 [mkRd 0 (Some [371; 366])]), None));
+                   ([372], (Some (mkRrset rt_ns 300 [mkRd 0 (Some [371; 366]); mkRd 5 None]), None)) ] [] in
+  wf_zone zf = true /\
+  a_addl (query (fst (zf_build zf)) [372; 9] rt_a) = [mkG [371; 366] rt_a 77 (mkRd 7 None); mkG [371; 366] rt_aaaa 78 (mkRd 8 None)] /\
+  a_addl (query (fst (zf_build zf)) [371; 366] rt_a) = [mkG [371; 366] rt_a 77 (mkRd 7 None); mkG [371; 366] rt_aaaa 78 (mkRd 8 None)] /\
+  a_aa (query (fst (zf_build zf)) [371; 366] rt_a) = false.
+Proof. vm_compute. repeat split; reflexivity. Qed.
